@@ -7,7 +7,8 @@ from common import rng
 FAMILY = "ladder"
 HARNESS = {"source": "x_ladder.c", "exclude_objs": ["loop"], "leak_clean": True}
 ENV = {"VERIF_LEAKCHECK": "1"}
-RULE = ("vclone / vdeser: cif_value_clone / cif_value_deserialize of value trees with tables at any depth (12 hand-picked: empty tables, "
+RULE = ("getpackets: 1, 2, 3, 9 names and 10 names of one uthash bucket x every fault position; nextpacket: packets of 1..10 items with unknown / "
+        "text / number / list / table (nested) values, handed over or dropped x every fault position; vclone / vdeser: cif_value_clone / cif_value_deserialize of value trees with tables at any depth (12 hand-picked: empty tables, "
         "table in list in table, a bucket expansion inside a nested table; 25 / 400 random trees of depth <= 3) x every fault position; "
         "namesnorm: n = 1..5 names x every fault position; deser of table blobs: 0, 1, 3 and 11 (one bucket) keys x value "
         "shapes x every fault position; mapset / mapdel / tclone: tables and packets with 0..10 keys sharing a uthash bucket (first bucket expansion at the 10th) "
@@ -231,6 +232,35 @@ def tree_requests(r, tier):
                 yield "ladder vdeser %s %d" % (" ".join(toks(sh)), k)
 
 
+def iter_requests(r, tier):
+    """cif_loop_get_packets (name set) and cif_pktitr_next_packet (packet assembly).  The order of the names in the iterator's
+    array is SQLite's, so only name sets whose uthash behaviour does not depend on the insertion order are used: up to 9
+    names (no bucket can reach the expansion threshold) and exactly 10 names of one bucket (expansion at the 10th insertion)."""
+    pcoll = colliding("_p", 7, 5, 10)
+    sets = [["_a"], ["_a", "_b"], ["_a", "_b", "_c.d"], ["_n%d" % i for i in range(9)], pcoll]
+    if tier != "quick":
+        sets += [["_n%d" % i for i in range(5)], pcoll[:7]]
+    for names in sets:
+        n = len(names)
+        total = 1 + 5 * n + 1 + n + 2 + (1 if n >= 10 else 0)
+        for k in range(0, total + 2):
+            yield "ladder getpackets %d %s %d" % (n, " ".join(hx(x) for x in names), k)
+    T = lambda *kv: ("T", list(kv))
+    vals = ["S", "C", "M0", "M1", ["C", "M1"], T(("a", "C")), ["S", T(("k", ["C"]), ("b", T()))], []]
+    packets = [[("_a", v)] for v in vals]
+    packets += [[("_a", "C"), ("_b", "M1")], [("_a", ["C"]), ("_b", "S"), ("_c", T(("x", "M0")))],
+                [(nm, "C") for nm in pcoll], [("_n%d" % i, vals[i % len(vals)]) for i in range(9)]]
+    for _ in range(4 if tier == "quick" else 60):
+        packets.append([("_r%d" % i, rand_tree(r, 2, ["a", "b", "zz"])) for i in range(r.randint(1, 5))])
+    for p in packets:
+        n = len(p)
+        body = " ".join("%s %s" % (hx(nm), " ".join(vtoks(v))) for nm, v in p)
+        total = 1 + 2 * n + 2 + (1 if n >= 10 else 0) + sum(vbound(v) for _, v in p)
+        for keep in (0, 1):
+            for k in range(0, total + 2):
+                yield "ladder nextpacket %d %d %s %d" % (keep, n, body, k)
+
+
 def rand_nonum(r, depth):
     if depth > 0 and r.random() < 0.4:
         return [rand_nonum(r, depth - 1) for _ in range(r.randint(0, 4))]
@@ -260,6 +290,8 @@ def generate(seed, tier):
     for q in map_requests(r, tier):
         yield q
     for q in tree_requests(r, tier):
+        yield q
+    for q in iter_requests(r, tier):
         yield q
     # cif_packet_create: at most 9 names, so that no uthash bucket can reach the expansion threshold of 10 entries
     flagsets = ["-", "n", "r", "nn", "nr", "rn", "rr", "nrn", "rrn", "nnnn", "rnrnr", "rrrrrrrrr", "nnnnnnnnn"]
@@ -327,6 +359,11 @@ def oracle(req, impl):
         if bad in impl:
             return "the caller's list is not usable as a list after the call: " + impl.split(bad, 1)[1].split()[0].join([bad, ""])
     for mark, what in (("!NOCLONE", "cif_value_clone returned CIF_OK without a clone"), ("!CLONESET", "cif_value_clone failed but set *clone")):
+        if mark in impl:
+            return what
+    for mark, what in (("!NOITER", "cif_loop_get_packets returned CIF_OK without an iterator"), ("!ITERSET", "cif_loop_get_packets failed but set *iterator"),
+                       ("!RETRY", "cif_loop_get_packets did not succeed when repeated with memory available"), ("!ITERUSE", "the iterator is not usable"),
+                       ("!PACKETSET", "cif_pktitr_next_packet failed but set *packet"), ("!PVALUE", "the packet read through the iterator does not hold the stored value")):
         if mark in impl:
             return what
     for mark in ("!PNAME", "!PCOUNT", "!PITEM", "!NOPACKET", "!TEXT", "!NEWVALUE"):
